@@ -45,6 +45,9 @@ pub enum OpK {
     FilterIds,
     HotStats,
     CacheStats,
+    /// filter the index cannot compile (NOT without operand): the scan fall-back path
+    FilterIdsUncompilable,
+    FilterDeleteUncompilable,
 }
 
 pub const CATALOGUE: &[OpK] = &[
@@ -70,6 +73,8 @@ pub const CATALOGUE: &[OpK] = &[
     OpK::FilterIds,
     OpK::HotStats,
     OpK::CacheStats,
+    OpK::FilterIdsUncompilable,
+    OpK::FilterDeleteUncompilable,
 ];
 
 #[derive(Clone, Debug, Serialize, Deserialize)]
@@ -206,6 +211,14 @@ pub fn apply(e: &kyrodb_engine::TieredEngine, op: OpK, tid: usize, n: usize) {
             let f = pb::MetadataFilter { filter_type: Some(pb::metadata_filter::FilterType::Exact(pb::ExactMatch { key: "g".into(), value: "0".into() })) };
             let _ = e.cold_tier().ids_for_metadata_filter(&f);
         }
+        OpK::FilterIdsUncompilable => {
+            let f = pb::MetadataFilter { filter_type: Some(pb::metadata_filter::FilterType::NotFilter(Box::new(pb::NotFilter { filter: None }))) };
+            let _ = e.cold_tier().ids_for_metadata_filter(&f);
+        }
+        OpK::FilterDeleteUncompilable => {
+            let f = pb::MetadataFilter { filter_type: Some(pb::metadata_filter::FilterType::OrFilter(pb::OrFilter { filters: vec![pb::MetadataFilter { filter_type: Some(pb::metadata_filter::FilterType::NotFilter(Box::new(pb::NotFilter { filter: None }))) }, pb::MetadataFilter { filter_type: Some(pb::metadata_filter::FilterType::Exact(pb::ExactMatch { key: "g".into(), value: "1".into() })) }] })) };
+            let _ = e.batch_delete_by_metadata_filter(&f);
+        }
         OpK::HotStats => {
             let _ = e.hot_tier().stats();
             let _ = e.hot_tier().len();
@@ -291,7 +304,7 @@ impl Prop for C08 {
         60
     }
     fn rule(&self) -> String {
-        "pairs: every ordered pair of the 22-operation catalogue x every decision of the non-preemptive run with more than one runnable thread (complete at preemption bound 1); schedules: 2-3 threads x 1-3 operations x 1-4 generated preemptions x cache strategy x engine shape; non-trivial = the plan preempted at least once and both threads touched a common lock (some thread had to wait) or more than 20 decisions were taken; distinct = hash of decoded case".into()
+        "pairs: every ordered pair of the 24-operation catalogue x every decision of the non-preemptive run with more than one runnable thread (complete at preemption bound 1); schedules: 2-3 threads x 1-3 operations x 1-4 generated preemptions x cache strategy x engine shape; non-trivial = the plan preempted at least once and both threads touched a common lock (some thread had to wait) or more than 20 decisions were taken; distinct = hash of decoded case".into()
     }
     fn decode(&self, raw: &Raw, _tier: Tier) -> Case {
         let mut t = Tape::new(&raw.head);
